@@ -1811,14 +1811,17 @@ class PGPKey(Armorable, ParentRef, PGPObject):
 
         try:
             for sk in itertools.chain([self], self.subkeys.values()):
-                sk._key.unprotect(passphrase)
+                if sk.is_protected:
+                    sk._key.unprotect(passphrase)
             del passphrase
             yield self
 
         finally:
             # clean up here by deleting the previously decrypted secret key material
+            # (a component that is not passphrase-protected has no ciphertext to restore its secrets from)
             for sk in itertools.chain([self], self.subkeys.values()):
-                sk._key.keymaterial.clear()
+                if sk.is_protected:
+                    sk._key.keymaterial.clear()
 
     def add_uid(self, uid, selfsign=True, **prefs):
         """
